@@ -144,9 +144,11 @@ def mul (c : Cfg) (a b : Nat) : Nat :=
 
 def div (c : Cfg) (a b : Nat) : Nat :=
   let n := c.nbits
-  if isNaN n c.w a then a
+  -- quiet build; the zero-divisor test comes first since the fix "lns operator/= must test for a zero divisor before the
+  -- NaN operands" (the throwing build throws there: Model/Except.lean `Lns.prologue`)
+  if isZero n c.w b then setNaN n
+  else if isNaN n c.w a then a
   else if isNaN n c.w b then setNaN n
-  else if isZero n c.w b then setNaN n
   else if isZero n c.w a then a
   else
     let lexp := assign n (n - 1) a
@@ -156,7 +158,7 @@ def div (c : Cfg) (a b : Nat) : Nat :=
       let sum := assign (n + 1) n (ursub n (assign (n - 1) n lexp) (assign (n - 1) n rexp))
       satTail n sum negative
     else
-      let l := (lexp + twosComp (n - 1) rexp) % 2 ^ (n - 1) -- `lexp -= rexp` = lexp += twosComplement(rexp) (repair f65bb52)
+      let l := (lexp + twosComp (n - 1) rexp) % 2 ^ (n - 1) -- `lexp -= rexp` = lexp += twosComplement(rexp) (repair 848b03b)
       setSign n (assign (n - 1) n l) negative
 
 /-- unary minus -/
@@ -231,6 +233,7 @@ def convertF64 (c : Cfg) (t : Thresholds) (v logv : Nat) : Nat :=
   if ue == 0x7FF && (rf == (fmask &&& snanmask) || rf == (fmask &&& (qnanmask ||| snanmask))) then setNaN n
   else if ue == 0x7FF && rf == (fmask &&& qnanmask) then setNaN n
   else if ue == 0x7FF && rf == 0 then (if s then maxnegEnc n else maxposEnc n)     -- setinf(s)
+  else if ue == 0x7FF then setNaN n          -- every other fraction: a NaN with a payload (fix "lns convert_ieee754 must map every NaN payload …")
   else if IeeeBits.isZero f64 v then setZero n                                               -- v == 0.0
   else
     let satEarly : Option Nat :=
